@@ -25,14 +25,16 @@ pub struct Variation {
     pub legacy_pal: bool,
     /// permute cel chunks within each frame
     pub cel_order: bool,
+    /// storage used when `storage` is off
+    pub default_storage: Storage,
 }
 
 impl Variation {
     pub fn none() -> Variation {
-        Variation { storage: false, count_style: false, ignorable: false, junk: false, zero_ratio: false, padding: false, trailer: false, legacy_pal: false, cel_order: false }
+        Variation { storage: false, count_style: false, ignorable: false, junk: false, zero_ratio: false, padding: false, trailer: false, legacy_pal: false, cel_order: false, default_storage: Storage::Zlib(6) }
     }
     pub fn all() -> Variation {
-        Variation { storage: true, count_style: true, ignorable: true, junk: true, zero_ratio: true, padding: true, trailer: true, legacy_pal: true, cel_order: true }
+        Variation { storage: true, count_style: true, ignorable: true, junk: true, zero_ratio: true, padding: true, trailer: true, legacy_pal: true, cel_order: true, default_storage: Storage::Zlib(6) }
     }
     pub const NAMES: [&'static str; 9] = ["storage", "count_style", "ignorable", "junk", "zero_ratio", "padding", "trailer", "legacy_pal", "cel_order"];
     pub fn only(i: usize) -> Variation {
@@ -83,9 +85,9 @@ pub fn default_header(sp: &Sprite) -> HeaderSpec {
     }
 }
 
-pub fn storage_choice(rng: &mut Rng, vary: bool) -> Storage {
-    if !vary {
-        return Storage::Zlib(6);
+pub fn storage_choice(rng: &mut Rng, v: &Variation) -> Storage {
+    if !v.storage {
+        return v.default_storage.clone();
     }
     match rng.below(12) {
         0 | 1 => Storage::Raw,
@@ -260,9 +262,9 @@ pub fn compile_with(sp: &Sprite, rng: &mut Rng, v: &Variation, palprog: &Palette
                 reserved.copy_from_slice(&rng.bytes(7));
             }
             let storage = match c.content {
-                CelContentM::Image { .. } => storage_choice(rng, v.storage),
+                CelContentM::Image { .. } => storage_choice(rng, v),
                 CelContentM::Tilemap { .. } => {
-                    let s = storage_choice(rng, v.storage);
+                    let s = storage_choice(rng, v);
                     if s == Storage::Raw {
                         Storage::Zlib(1)
                     } else {
